@@ -299,6 +299,18 @@ fn special_msg(spec: &str, id: [u8; 12]) -> Option<(stun_rs::StunMessage, usize)
             l.add(PasswordAlgorithm::new(Algorithm::new(AlgorithmId::MD5, params.as_slice())));
             (b.with_attribute(l).build(), 4 + n)
         }
+        "datafp" | "datami" | "datasha" => {
+            use stun_rs::attributes::stun::{Fingerprint, MessageIntegrity, MessageIntegritySha256};
+            use stun_rs::attributes::turn::Data;
+            let key = HMACKey::new_short_term("buffers-key").unwrap();
+            let b = b.with_attribute(Data::new(params));
+            let b = match kind {
+                "datafp" => b.with_attribute(Fingerprint::default()),
+                "datami" => b.with_attribute(MessageIntegrity::new(key)),
+                _ => b.with_attribute(MessageIntegritySha256::new(key)),
+            };
+            return Some((b.build(), n));
+        }
         "unkattrs" => {
             let mut u = UnknownAttributes::default();
             for i in 0..n {
@@ -421,7 +433,9 @@ fn cmd_buffers(args: &[String]) {
             }
             if let Some(spec) = c["special"].as_str() {
                 if let Some((msg, vlen)) = special_msg(spec, id) {
-                    let mut r = enc_record_msg(&msg, json!([vlen]), json!([]), false, c["buf"].as_u64().unwrap() as usize,
+                    let tl = if spec.starts_with("datafp") { Some(4) } else if spec.starts_with("datami") { Some(20) } else if spec.starts_with("datasha") { Some(32) } else { None };
+                    let lens = match tl { Some(t) => json!([vlen, t]), None => json!([vlen]) };
+                    let mut r = enc_record_msg(&msg, lens, json!([]), false, c["buf"].as_u64().unwrap() as usize,
                                                c["prefill"].as_u64().unwrap_or(0) as u8, &None, id, 0);
                     r["special"] = json!(spec);
                     r["have_big"] = json!(true);
@@ -510,11 +524,16 @@ fn cmd_buffers(args: &[String]) {
         }
     }
     // one attribute whose own value does not fit the 16-bit attribute length
-    for spec in ["pwdalg:65532", "pwdalg:65536", "pwdalg:70000", "pwdalgs:65536", "pwdalgs:70000", "unkattrs:32767", "unkattrs:32768", "unkattrs:40000"] {
+    for spec in ["pwdalg:65532", "pwdalg:65536", "pwdalg:70000", "pwdalgs:65536", "pwdalgs:70000", "unkattrs:32767", "unkattrs:32768", "unkattrs:40000",
+                 // a body that an integrity / fingerprint attribute takes to or across the limit
+                 "datafp:65520", "datafp:65524", "datafp:65528", "datami:65504", "datami:65508", "datami:65528",
+                 "datasha:65492", "datasha:65496", "datasha:65528"] {
         let Some((msg, vlen)) = special_msg(spec, id) else { continue };
         nmsg += 1;
+        let tail_len = if spec.starts_with("datafp") { Some(4) } else if spec.starts_with("datami") { Some(20) } else if spec.starts_with("datasha") { Some(32) } else { None };
         for buf in [0usize, 24, 65535, 65563, 70100, 200000] {
-            let mut r = enc_record_msg(&msg, json!([vlen]), json!([]), false, buf, 0x3C, &None, id, 0);
+            let lens = match tail_len { Some(t) => json!([vlen, t]), None => json!([vlen]) };
+            let mut r = enc_record_msg(&msg, lens, json!([]), false, buf, 0x3C, &None, id, 0);
             r["special"] = json!(spec);
             // no reference encoding: whether it is the same with another buffer is not judged here
             r["have_big"] = json!(true);
